@@ -362,3 +362,86 @@ func onEveryPathPred(f *ssa.Function, pred core.InstrPred) bool {
 	res := core.ReachAvoiding(f, nil, core.IsReturn, pred, nil)
 	return !res.Found
 }
+
+// loopTripBound: for a counted loop the value that bounds its trip count:
+// B for `i := 0; i < B; i++` (or <=), and B for `r := B; r > 0; r--`.
+func loopTripBound(l *core.Loop) ssa.Value {
+	ifi, ok := l.Header.Instrs[len(l.Header.Instrs)-1].(*ssa.If)
+	if !ok {
+		return nil
+	}
+	bo, ok := ifi.Cond.(*ssa.BinOp)
+	if !ok {
+		return nil
+	}
+	switch bo.Op {
+	case token.LSS, token.LEQ:
+		return bo.Y
+	case token.GTR, token.NEQ:
+		if k, isK := core.ConstInt(bo.Y); isK && k == 0 {
+			if ph, isPhi := bo.X.(*ssa.Phi); isPhi {
+				for i, e := range ph.Edges {
+					if !l.Blocks[ph.Block().Preds[i]] {
+						return e // the value the counter starts from
+					}
+				}
+			}
+		}
+	}
+	return nil
+}
+
+// resultThrough: v is the result of a call to one of keys, directly or as the
+// value a helper of the analysed packages returns unchanged (the call moved
+// into an extracted helper).
+func resultThrough(p *core.Prog, v ssa.Value, depth int, keys ...string) bool {
+	if depth > 3 || v == nil {
+		return false
+	}
+	if callResult(v, keys...) != nil {
+		return true
+	}
+	var c *ssa.Call
+	idx := 0
+	switch x := core.Strip(v).(type) {
+	case *ssa.Call:
+		c = x
+	case *ssa.Extract:
+		if cc, ok := x.Tuple.(*ssa.Call); ok {
+			c, idx = cc, x.Index
+		}
+	}
+	if c == nil {
+		return false
+	}
+	g := c.Call.StaticCallee()
+	if g == nil || !p.InAnalysed(g) || len(g.Blocks) == 0 {
+		return false
+	}
+	found := false
+	core.EachInstr(g, func(i ssa.Instruction) {
+		if ret, ok := i.(*ssa.Return); ok {
+			rv := core.ReturnValues(ret)
+			if idx < len(rv) && resultThrough(p, rv[idx], depth+1, keys...) {
+				found = true
+			}
+		}
+	})
+	return found
+}
+
+// peerLookupsDeep: peerLookups of f plus those of the helpers f calls directly.
+func peerLookupsDeep(p *core.Prog, f *ssa.Function) []lookupSite {
+	out := peerLookups(f)
+	core.EachInstr(f, func(i ssa.Instruction) {
+		if c, ok := i.(*ssa.Call); ok {
+			if g := c.Call.StaticCallee(); g != nil && g != f && p.InAnalysed(g) && len(g.Blocks) > 0 && g.Pkg == f.Pkg {
+				if _, isGet := core.IsCall(i, "RootPeerList.Get", "PeerList.Get", "Channel.RootPeers", "Channel.updatePeer", "Peer.connectionCloseStateChange"); isGet {
+					return
+				}
+				out = append(out, peerLookups(g)...)
+			}
+		}
+	})
+	return out
+}
